@@ -39,14 +39,30 @@ $(B)/ref/Factory.o: refsrc/src/Factory.cpp
 	@mkdir -p $(dir $@)
 	$(CXX) $(STD) -O0 $(DEFS) -Dnifly=nifly_ref $(WARN) $(INC_REF) -MMD -MP -c $< -o $@
 
-# adapter compiled once per build (C08)
+# adapter compiled once per build (C08); the reference build gets its own copy of the harness code it needs
+# (typed generator, stream glue) under namespace sim_ref
+REFDEFS := $(DEFS) -Dnifly=nifly_ref -Dsim=sim_ref
 $(B)/sim/adapter_cur.o: sim/adapter.cxx
 	@mkdir -p $(dir $@)
 	$(CXX) $(STD) $(OPT) $(SAN) $(DEFS) -DPFX=cur_ $(WARN) $(INC_CUR) -Isim -MMD -MP -c -x c++ $< -o $@
 
 $(B)/sim/adapter_ref.o: sim/adapter.cxx
 	@mkdir -p $(dir $@)
-	$(CXX) $(STD) -O1 -gline-tables-only $(DEFS) -DPFX=ref_ -Dnifly=nifly_ref $(WARN) $(INC_REF) -Isim -MMD -MP -c -x c++ $< -o $@
+	$(CXX) $(STD) -O1 -gline-tables-only $(REFDEFS) -DPFX=ref_ $(WARN) $(INC_REF) -Isim -MMD -MP -c -x c++ $< -o $@
+
+$(B)/refsim/%.o: sim/%.cpp $(B)/gen_ref/hierarchy.inc
+	@mkdir -p $(dir $@)
+	$(CXX) $(STD) -O1 -gline-tables-only $(REFDEFS) $(WARN) $(INC_REF) -Isim -I$(B)/gen_ref -MMD -MP -c $< -o $@
+
+$(B)/refsim/refstubs.o: sim/refstubs.cxx
+	@mkdir -p $(dir $@)
+	$(CXX) $(STD) -O1 -gline-tables-only $(REFDEFS) $(WARN) $(INC_REF) -Isim -MMD -MP -c -x c++ $< -o $@
+
+$(B)/gen_ref/hierarchy.inc: tools/hierarchy.py $(wildcard refsrc/include/*.hpp)
+	@mkdir -p $(dir $@)
+	python3 tools/hierarchy.py refsrc/include > $@.tmp && mv $@.tmp $@
+
+REFSIM_OBJS := $(B)/refsim/core.o $(B)/refsim/gen.o $(B)/refsim/refstubs.o
 
 $(B)/sim/%.o: sim/%.cpp
 	@mkdir -p $(dir $@)
@@ -58,13 +74,13 @@ $(B)/gen/hierarchy.inc: tools/hierarchy.py $(wildcard $(NIFLY_REPO)/include/*.hp
 
 $(SIM_OBJS): $(B)/gen/hierarchy.inc
 
-$(B)/nifsim: $(SIM_OBJS) $(B)/sim/adapter_cur.o $(B)/sim/adapter_ref.o $(CUR_OBJS) $(B)/cur/Factory.o $(REF_OBJS) $(B)/ref/Factory.o
-	clang++ $(SAN) -o $@ $(SIM_OBJS) $(B)/sim/adapter_cur.o $(CUR_OBJS) $(B)/sim/adapter_ref.o $(REF_OBJS) $(B)/cur/Factory.o $(B)/ref/Factory.o
+$(B)/nifsim: $(SIM_OBJS) $(B)/sim/adapter_cur.o $(B)/sim/adapter_ref.o $(REFSIM_OBJS) $(CUR_OBJS) $(B)/cur/Factory.o $(REF_OBJS) $(B)/ref/Factory.o
+	clang++ $(SAN) -o $@ $(SIM_OBJS) $(B)/sim/adapter_cur.o $(CUR_OBJS) $(B)/sim/adapter_ref.o $(REFSIM_OBJS) $(REF_OBJS) $(B)/cur/Factory.o $(B)/ref/Factory.o
 
 clean:
 	rm -rf $(B)
 
--include $(wildcard $(B)/cur/*.d $(B)/ref/*.d $(B)/sim/*.d)
+-include $(wildcard $(B)/cur/*.d $(B)/ref/*.d $(B)/sim/*.d $(B)/refsim/*.d)
 
 .PHONY: libs
 libs: $(CUR_OBJS) $(B)/cur/Factory.o $(REF_OBJS) $(B)/ref/Factory.o
